@@ -402,3 +402,12 @@ LAWS = [
     Law("from_points_and_conics", lambda tier: conic_case(tier), run_conics, lambda c: True, lambda c: [], {"quick": 400, "thorough": 8000},
         "from_points_and_conics maps the three points and the first conic onto the second", shard=200),
 ]
+
+
+# ------------------------------------------------------------------------------------------- equivalent ways of asking
+from .. import forms as _forms  # noqa: E402
+
+LAWS.append(
+    Law("argument_forms", lambda tier: _forms.forms_case_strategy("C08")(tier), _forms.run_forms("C08"), lambda c: True, lambda c: [c["entry"], f"d{c['d']}"], {"quick": 600, "thorough": 8000},
+        "the same object asked for in several ways (positional / keyword arguments, other representatives of point arguments, int / float / numpy scalars, defaults given explicitly, symmetric argument orders): all forms agree", shard=300)
+)
